@@ -273,16 +273,23 @@ def pointer (ts : Toks) : List Ptr × Toks :=
   | some .STAR | some .REF => let (_, _, ps, r) := qualsPtrs ts; (ps, r)
   | _ => ([], ts)
 
+/-- `Parser.starts_declarator`: after a `(`, can a declarator start here?  Otherwise the `(`
+    opens a parameter list (it is followed by `)`, a type specifier or a known name). -/
+def declStarts (env : Env) : Toks → Bool
+  | [] => false
+  | t :: _ =>
+    t.typ == .STAR || t.typ == .REF || t.typ == .LPAREN || (t.typ == .ID && (env.unq t.val).isNone)
+
 /-- `Parser.declarator` -/
-def declarator : Nat → Toks → Res (Option Declarator × Toks)
+def declarator (env : Env) : Nat → Toks → Res (Option Declarator × Toks)
   | 0, _ => .fuel
   | n+1, ts =>
     let (ps, ts1) := pointer ts
     match ts1 with
     | t :: rest =>
       if t.typ = .ID then .ok (some (.leaf ps (some t.val)), rest)
-      else if t.typ = .LPAREN then do
-        let (inner, ts2) ← declarator n rest
+      else if t.typ = .LPAREN ∧ declStarts env rest = true then do
+        let (inner, ts2) ← declarator env n rest
         let (_, ts3) ← mustbe .RPAREN ts2
         match inner with
         | none => .ok (some (.leaf ps none), ts3)
@@ -433,6 +440,9 @@ def attributeP : Nat → List (Str × AttrVal) → Toks → Res (List (Str × At
     | (false, _) => .ok (attrs, ts)
     | (true, ts1) => do
       let (nameTok, ts2) ← mustbe .ID ts1
+      if nameTok.val.head? = some '_' then
+        .reject s!"Attribute names starting with '_' are reserved: '{String.ofList nameTok.val}'"
+      else
       match have? .LPAREN ts2 with
       | (true, ts3) => do
         let (parts, ts4) ← attrScan nameTok.val 1 ts3
@@ -470,16 +480,26 @@ def Declarator.shallowName : Declarator → Option Str
 def Decl.shallowName : Decl → Option Str
   | .mk _ dr _ _ _ _ _ => dr.bind Declarator.shallowName
 
+/-- a lone `void` parameter that carries qualifiers, storage, array bounds, attributes or a value -/
+def isDecoratedVoid : List Decl → Bool
+  | [.mk sp none _ _ arr attrs init] =>
+    sp.specifier == ["void".toList] &&
+      (sp.const || sp.volatile || !sp.storage.isEmpty || !arr.isEmpty || init.isSome || !attrs.isEmpty)
+  | _ => false
+
 mutual
 /-- `Parser.declaration` -/
 def declaration (env : Env) : Nat → Toks → Res (Decl × Toks)
   | 0, _ => .fuel
   | n+1, ts => do
     let (sp, ts1) ← declSpec env n ts
-    let (dr, ts2) ← declarator n ts1
+    let (dr, ts2) ← declarator env n ts1
     let (params, fc, ts3) ← (match peekTyp ts2 with
       | some .LPAREN => do
         let (ps, ts') ← paramList env n [] (ts2.drop 1)
+        if isDecoratedVoid ps then
+          .reject "'void' as the only parameter means no parameters; it cannot have qualifiers, attributes or a value"
+        else
         let ps := if isVoidOnly ps then [] else ps
         match ts' with
         | t :: rest =>
@@ -616,11 +636,11 @@ def AttrVal.render : AttrVal → Option Str     -- none: printed as bare `+name`
   | .text parts => some (parts.map (·.val)).flatten
   | .init v => some v.py
 
-/-- `Declaration.gen_attrs` (names starting with `_` and `template` are skipped) -/
+/-- `Declaration.gen_attrs` (names starting with `_` are skipped) -/
 def genAttrsGo (first : Bool) : List (Str × AttrVal) → Str
   | [] => []
   | (k, v) :: t =>
-    if k.head? = some '_' ∨ k = sp "template" then genAttrsGo first t
+    if k.head? = some '_' then genAttrsGo first t
     else
       (if first then sp " " else []) ++ sp "+" ++
         (match v.render with | none => k | some s => k ++ sp "(" ++ s ++ sp ")") ++ genAttrsGo false t
@@ -734,6 +754,107 @@ def Declarator.pointers : Declarator → List Ptr
   | .leaf ps _ => ps
   | .wrap ps _ => ps
 
+/-! ### the rendering entry points with their keyword arguments
+
+`gen_arg_as_cxx(**kw)` / `gen_arg_as_c(**kw)`: `asgn_value`, `remove_const`, `as_ptr`,
+`force_ptr`, `as_scalar`, `name=`, `params=None`, `with_template_args`, `continuation`
+(the generators call the renderers with these to declare locals, results and casts). -/
+
+structure GenOpts where
+  asgnValue : Bool := false
+  removeConst : Bool := false
+  asPtr : Bool := false
+  forcePtr : Bool := false
+  asScalar : Bool := false
+  noParams : Bool := false              -- `params=None`
+  withTemplateArgs : Bool := false
+  continuation : Bool := false
+  name : Option (Option Str) := none    -- `name=` given: `some none` is `name=None`
+  deriving Repr, Inhabited
+
+/-- `Ptr.gen_decl_work(**kwargs)` -/
+def Ptr.genK (asC : Bool) (o : GenOpts) (p : Ptr) : Str :=
+  sp " " ++ (if asC ∨ o.asPtr then sp "*" else match p.kind with | .star => sp "*" | .ref => sp "&")
+    ++ (if p.const then sp " const" else []) ++ (if p.volatile then sp " volatile" else [])
+
+/-- `Declarator.gen_decl_work(**kwargs)` -/
+def Declarator.genK (asC : Bool) (o : GenOpts) : Declarator → Str
+  | .leaf ps name =>
+    (if o.forcePtr then sp " *" else if o.asScalar then [] else (ps.map (Ptr.genK asC o)).flatten)
+    ++ (match o.name with
+        | some (some n) => if n.isEmpty then [] else sp " " ++ n
+        | some none => []
+        | none => match name with | some n => sp " " ++ n | none => [])
+  | .wrap ps inner =>
+    (if o.forcePtr then sp " *" else if o.asScalar then [] else (ps.map (Ptr.genK asC o)).flatten)
+    ++ sp " (" ++ inner.genK asC o ++ sp ")"
+
+/-- is the `const` of the base type printed: `asgn_value` drops it only from a declaration
+    without indirection, `remove_const` always -/
+def argConst (o : GenOpts) (const indirect : Bool) : Bool :=
+  if o.asgnValue ∧ const ∧ !indirect then false
+  else if o.removeConst then false
+  else const
+
+/-- the type text of `gen_arg_as_lang`: with `with_template_args` the typemap name and its arguments -/
+def argTypeK (env : Env) (asC : Bool) (o : GenOpts) (s : Spec) : Option Str :=
+  if o.withTemplateArgs ∧ !s.targs.isEmpty then
+    some (s.typemap ++ (match s.targs with
+      | [] => []
+      | t :: ts => sp "<" ++ t.str ++ (ts.map (fun x => sp "," ++ x.str)).flatten ++ sp ">"))
+  else langType env asC s
+
+/-- the declarator text; a declaration without declarator prints `Declaration.name` (or the `name=` keyword) -/
+def argDeclaratorK (asC : Bool) (o : GenOpts) (dr : Option Declarator) (attrs : List (Str × AttrVal)) : Option Str :=
+  match dr with
+  | some d => some (d.genK asC o)
+  | none =>
+    match o.name with
+    | some _ => some ((Declarator.leaf [] none).genK asC o)
+    | none => (attrName attrs).map (fun n => (Declarator.leaf [] n).genK asC o)
+
+def argIndirect : Option Declarator → Bool
+  | some d => !d.pointers.isEmpty
+  | none => false
+
+mutual
+def genArgK (env : Env) (asC : Bool) (o : GenOpts) : Decl → Option Str
+  | .mk s dr params fc arr attrs _ =>
+    match argTypeK env asC o s, argDeclaratorK asC o dr attrs, genParamsK env asC o.noParams o.continuation fc params with
+    | some ty, some dt, some ptxt =>
+      some ((if argConst o s.const (argIndirect dr) then sp "const " else []) ++ (if s.volatile then sp "volatile " else [])
+        ++ ty ++ dt ++ ptxt ++ (arr.map (fun e => sp "[" ++ printExpr e ++ sp "]")).flatten)
+    | _, _, _ => none
+def genParamsK (env : Env) (asC : Bool) (noParams cont fc : Bool) : Option (List Decl) → Option Str
+  | none => some []
+  | some ps =>
+    if noParams then some [] else
+    match genListK env asC cont ps with
+    | some t => some (sp "(" ++ (if cont then sp "\t" else []) ++ t ++ sp ")" ++ (if fc then sp " const" else []))
+    | none => none
+def genListK (env : Env) (asC : Bool) (cont : Bool) : List Decl → Option Str
+  | [] => some (sp "void")
+  | p :: ps =>
+    match genArgK env asC { continuation := cont } p, genArgTailK env asC cont ps with
+    | some a, some b => some (a ++ b)
+    | _, _ => none
+def genArgTailK (env : Env) (asC : Bool) (cont : Bool) : List Decl → Option Str
+  | [] => some []
+  | p :: ps =>
+    match genArgK env asC { continuation := cont } p, genArgTailK env asC cont ps with
+    | some a, some b => some ((if cont then sp ",\t " else sp ", ") ++ a ++ b)
+    | _, _ => none
+end
+
+/-- the keyword combinations the tie exercises (name, options) -/
+def kwCombos : List (String × GenOpts) :=
+  [("asgn_value", { asgnValue := true }), ("remove_const", { removeConst := true }), ("as_ptr", { asPtr := true }),
+   ("force_ptr", { forcePtr := true }), ("as_scalar", { asScalar := true }), ("name=SH_x", { name := some (some (sp "SH_x")) }),
+   ("name=None", { name := some none }), ("params=None", { noParams := true }),
+   ("with_template_args", { withTemplateArgs := true }), ("continuation", { continuation := true }),
+   ("asgn_value+as_ptr", { asgnValue := true, asPtr := true }),
+   ("asgn_value+name+params=None", { asgnValue := true, name := some (some (sp "SH_x")), noParams := true })]
+
 /-- `Declaration.as_cast()` (language "c") -/
 def asCast (env : Env) : Decl → Option Str
   | .mk s dr _ _ arr _ _ =>
@@ -812,7 +933,7 @@ def AttrVal.toks : AttrVal → Toks
 def attrsToks : List (Str × AttrVal) → Toks
   | [] => []
   | (k, v) :: t =>
-    if k.head? = some '_' ∨ k = sp "template" then attrsToks t
+    if k.head? = some '_' then attrsToks t
     else [tk .PLUS "+", nameTok k] ++ v.toks ++ attrsToks t
 
 def fcToks (fc : Bool) : Toks := if fc then [tk .TYPE_QUALIFIER "const"] else []
